@@ -40,6 +40,9 @@ func (e Entry) String() string { return entryNames[e] }
 type EnvSpec struct {
 	Fork      Fork
 	ExtraEips []int
+	// BerlinAt, when non-zero with Fork < Berlin, schedules Berlin (and nothing later) at that block
+	// number: one EVM object can then be moved across the fork with SetBlockNumber.
+	BerlinAt uint64
 }
 
 // TxSpec is one top-level invocation.
@@ -164,6 +167,9 @@ func NewForkSession(w *World, env EnvSpec, o ForkOpts) *ForkSession {
 	s.DB = w.NewState()
 	s.Proxy = NewStateProxy(s.DB, s.L)
 	s.Cfg = ChainConfig(env.Fork)
+	if env.BerlinAt != 0 && env.Fork < Berlin {
+		s.Cfg.BerlinBlock = new(big.Int).SetUint64(env.BerlinAt)
+	}
 	bc := forkBlockCtx(env.Fork, s.L)
 	s.Rules = s.Cfg.Rules(bc.BlockNumber, bc.Random != nil, bc.Time)
 	s.Rec = &ForkRecorder{L: s.L, Proxy: s.Proxy, Alloc: o.Alloc}
@@ -188,6 +194,15 @@ func NewForkSession(w *World, env EnvSpec, o ForkOpts) *ForkSession {
 	s.EVM = avm.NewEVM(bc, txc, sdb, s.Cfg, cfg)
 	s.EVM.IsExecuteJP = o.JoinPoints
 	return s
+}
+
+// SetBlockNumber moves the same EVM object to another block (EVM.SetBlockContext), as a chain does
+// when it reuses an EVM across blocks; the rules used for the per-transaction Prepare follow.
+func (s *ForkSession) SetBlockNumber(n uint64) {
+	bc := forkBlockCtx(s.Env.Fork, s.L)
+	bc.BlockNumber = new(big.Int).SetUint64(n)
+	s.EVM.SetBlockContext(bc)
+	s.Rules = s.Cfg.Rules(bc.BlockNumber, bc.Random != nil, bc.Time)
 }
 
 // Invoke runs one top-level entry point under recover.
